@@ -198,7 +198,18 @@ def gen_cases(rng, tier):
     m = gen_model(rng, i)
     route = "cli" if i % 16 == 5 else rng.choice(["main", "main", "api"])
     ops = gen_ops(rng, m, emit.model_items(m), route)
-    cases.append({"model": m, "ops": ops, "route": route, "listing": (i % 2 == 1 and route != "api")})
+    case = {"model": m, "ops": ops, "route": route, "listing": (i % 2 == 1 and route != "api")}
+    if route == "main" and i % 5 == 2:
+      # feature interaction: the same invocation also filters species and the file uses [Variables] placeholders
+      sp = []
+      for key in ("pair", "embed", "density"):
+        for ent in m.get(key) or []:
+          for x in ent[:-1]:
+            if x not in sp:
+              sp.append(x)
+      case["combined"] = {"S": rng.sample(sp, rng.randint(1, len(sp))), "exclude": rng.random() < 0.5, "tseed": rng.randrange(1 << 30)}
+      case["listing"] = False
+    cases.append(case)
   return cases
 
 
@@ -289,6 +300,66 @@ def same_output(target, a, b):
   return a == b
 
 
+def filter_items(items, S, exclude):
+  """Delete every pair / embed / density entry that mentions a species outside S (include) or in S (exclude)."""
+  out = []
+  for s_, its in items:
+    if s_ not in ("Pair", "EAM-Embed", "EAM-Density"):
+      out.append((s_, list(its)))
+      continue
+    keep = []
+    for k, v in its:
+      kk = norm(k)
+      spp = kk.split("->") if "->" in kk else (kk.split("-") if s_ == "Pair" else [kk])
+      ok = (not any(x in S for x in spp)) if exclude else all(x in S for x in spp)
+      if ok:
+        keep.append((k, v))
+    out.append((s_, keep))
+  return out
+
+
+def run_combined(case, ctx, items):
+  """--override/--add/--remove + --include/--exclude-species on a file with [Variables] placeholders, in ONE
+  invocation, against the file that was substituted, edited and pruned by hand."""
+  import random as _r
+  from checks import c15
+  m, ops = case["model"], case["ops"]
+  comb = case["combined"]
+  ctx.cls("combined:filter+edit+variables")
+  rng = _r.Random(comb["tseed"])
+  templ, subst, variables, unused, used = c15.template(items, rng)
+  # placeholders only in items no operation touches (an override replaces the whole value anyway)
+  touched = set((o["section"], norm(o["key"])) for o in ops)
+  templ = [(s_, [(k, (v if (s_, norm(k)) not in touched else dict(dict(subst)[s_])[k])) for k, v in its]) for s_, its in templ]
+  t_templ = c15.text_with_vars(templ, variables + unused, rng)
+  e1, err = reference_edit(subst, ops, drop_empty=True)
+  e2, _ = reference_edit(subst, ops, drop_empty=False)
+  flag = "--exclude-species" if comb["exclude"] else "--include-species"
+  got = outcome(routes.potable_main(["@IN", "@OUT"] + cli_args(ops) + [flag] + list(comb["S"]), t_templ))
+  ctx.count("differentials")
+  ctx.count("combined_invocations")
+  if err is not None:
+    if got[0] != "config_error":
+      ctx.violation("invalid_op_not_rejected", "%s -> %s via combined invocation" % (err, got[0]), what="invalid_op_not_rejected", mech="edit")
+    ctx.nontrivial(True)
+    return
+  ok = False
+  wants = []
+  for e in (e1, e2):
+    w = outcome(routes.potable_main(["@IN", "@OUT"], emit.items_text(filter_items(e, comb["S"], comb["exclude"]))))
+    wants.append(w)
+    if got[0] == w[0] and (got[0] != "ok" or same_output(m["target"], got[1], w[1])):
+      ok = True
+  if got[0] == "internal" and any(w[0] == "internal" for w in wants):
+    ok = True
+  if not ok:
+    ctx.violation("combined_differs", "ops %s + %s %s on a templated file: real -> %s (%s); file substituted, edited and pruned by hand -> %s" % (
+      [(o["op"], o["section"], o["key"]) for o in ops], flag, comb["S"], got[0], str(got[1])[:150] if got[0] != "ok" else "%d bytes" % len(got[1]),
+      [(w[0], str(w[1])[:100] if w[0] != "ok" else "%d bytes" % len(w[1])) for w in wants]), what="combined_differs", mech="edit")
+    return
+  ctx.nontrivial(True)
+
+
 def run_case(case, ctx):
   m, ops, route = case["model"], case["ops"], case["route"]
   ctx.cls("route:" + route)
@@ -305,6 +376,8 @@ def run_case(case, ctx):
   items = emit.model_items(m)
   text = emit.items_text(items)
   colon = any(":" in o["section"] for o in ops)
+  if case.get("combined"):
+    return run_combined(case, ctx, items)
   # reference edits under both readings of "last key of a section removed"
   e1, err = reference_edit(items, ops, drop_empty=True)
   e2, _ = reference_edit(items, ops, drop_empty=False)
